@@ -242,6 +242,9 @@ pub fn scenario(name: &str, params: &Value) -> Scenario {
             }
         }
         if m.is_some() {
+            // (refused for their size: neither takes nor gives back a slot)
+            specs.push(OpSpec::Unsubscribe(UnsubscribeSpec::simple(&"u".repeat(60))));
+            specs.push(OpSpec::Subscribe(SubscribeSpec::simple(&"s".repeat(60))));
             specs.push(OpSpec::Publish(PublishSpec::simple(1, "t", &[b'x'; 100])));
             specs.push(OpSpec::Publish(PublishSpec::simple(2, "t", &[b'y'; 100])));
         }
